@@ -124,8 +124,9 @@ def gen_cases(run):
     quick = run.tier == 'quick'
     cases = []          # dict(key, src, cfg, stream)
     for key, src in G.FIXED:
-        cases.append({'key': 'fixed:' + key, 'src': src, 'cfg': None, 'stream': 'fixed'})
-        cases.append({'key': 'fixed:' + key + ':leave', 'src': src, 'cfg': [['any', False]], 'stream': 'fixed'})
+        st = 'mutable' if key.startswith('mutable') else 'fixed'
+        cases.append({'key': 'fixed:' + key, 'src': src, 'cfg': None, 'stream': st})
+        cases.append({'key': 'fixed:' + key + ':leave', 'src': src, 'cfg': [['any', False]], 'stream': st})
     n_main = 420 if quick else 4200
     n_lazy = 60 if quick else 600
     n_temp = 15 if quick else 100
@@ -148,6 +149,14 @@ def gen_cases(run):
         cases.append({'key': '%s%d' % (stream, i), 'src': src, 'cfg': None, 'stream': stream})
         for _ in range(1 if quick else 2):
             cases.append({'key': '%s%d:rc' % (stream, i), 'src': src, 'cfg': L.random_config(rng), 'stream': stream})
+    # repeated call-free expressions around a call that mutates what they read (mutable box / list / global)
+    for i in range(60 if quick else 600):
+        src, fs = G.mutable_program(rng)
+        for f in fs:
+            feats[f] += 1
+        cases.append({'key': 'mut%d' % i, 'src': src, 'cfg': None, 'stream': 'mutable'})
+        if rng.random() < 0.3:
+            cases.append({'key': 'mut%d:rc' % i, 'src': src, 'cfg': L.random_config(rng), 'stream': 'mutable'})
     # programs that already mention tmp_1NNN names: user code, and real two-pass pipelines
     # (pass 1 under a random configuration by the transformer itself, its output is the input of the case)
     n_pipe = 80 if quick else 800
@@ -190,6 +199,11 @@ def load_corpus():
             c = json.load(f)
         out.append({'key': 'corpus:' + os.path.basename(p), 'src': c['src'], 'cfg': c.get('cfg'), 'stream': 'corpus'})
     return out
+
+
+def _mutable(case):
+    """programs using the mutable part of the prelude (outside the pure-load assumption of Py.SemAnf)"""
+    return case.get('stream') == 'mutable' or bool(re.search(r'\b(bump|B|L|G)\b', case['src']))
 
 
 def args_sexp(a):
@@ -268,6 +282,8 @@ def check(run, only_cases=None):
         'Py.SemAnf is a hand-written semantics of the generated subset (validated against CPython 3.12 on every run, not proved); '
         'operators, attribute/item loads and truthiness are pure total functions; unbound-name errors are not modelled',
         'directive callables other than anf.REPLACE / anf.LEAVE are not modelled (configurations are lists of edge patterns)',
+        'attribute / item loads and operators are pure in Py.SemAnf; the stream "mutable" (a box, a list and a global mutated by '
+        'bump()) checks the REAL transformer beyond that assumption by execution only, on statements whose operands are flat',
         'C18_sem_partial is proved for the fragment stated in Props/C18.lean (fragFn); outside it preservation is tested, not proved; '
         'the distribution of the reasons that put accepted functions outside the fragment is in coverage.fragment_exclusion_*',
     ]
@@ -387,7 +403,7 @@ def check(run, only_cases=None):
             run.fail('transformed function behaves differently (result / ordered effect log / exception type)', rec, cls)
     run.cov['hazard_free_cases'] = hazfree
     if answers is not None:
-        infrag = [i for i in range(len(cases)) if answers[idx[i]['frag']] == 'True']
+        infrag = [i for i in range(len(cases)) if answers[idx[i]['frag']] == 'True' and not _mutable(cases[i])]
         bad = [case_record(cases[i]) for i in infrag if hazards_of(i)]
         run.cov['cases_in_proved_fragment'] = len(infrag)
         run.cov['cases_in_proved_fragment_with_temporaries'] = len([i for i in infrag if results[i].get('ntemps', 0) > 0])
@@ -478,8 +494,8 @@ def check(run, only_cases=None):
         adis, an = [], 0
         mdis, mn = [], 0
         for i, (c, d) in enumerate(zip(cases, results)):
-            if d['res'][0] == 'err' or any(isinstance(n, ast.While) for n in ast.walk(d['fn'])):
-                continue        # Py.SemAnf has no `while`
+            if d['res'][0] == 'err' or any(isinstance(n, ast.While) for n in ast.walk(d['fn'])) or _mutable(c):
+                continue        # Py.SemAnf has no `while`, and no mutable objects (loads are pure there)
             hz = hazards_of(i) or []
             for j, a in enumerate(G.INPUTS):
                 py = json.loads(json.dumps(d['py_orig'][j]))
